@@ -198,6 +198,30 @@ def _stored_names(stmts):
     return out
 
 
+def single_expr_of(body):
+    """the one expression a small function body computes, or None:  `return E`;  `if C: return True else: return False` -> C;
+    `if A: return False` + `return B` -> `not A and B` (B boolean-valued)"""
+    body = _strip_doc(body)
+    if len(body) == 1 and isinstance(body[0], ast.Return) and body[0].value is not None:
+        return body[0].value
+    if len(body) == 1 and isinstance(body[0], ast.If) and len(body[0].body) == 1 and len(body[0].orelse) == 1 \
+            and all(isinstance(x, ast.Return) and isinstance(x.value, ast.Constant) and isinstance(x.value.value, bool)
+                    for x in (body[0].body[0], body[0].orelse[0])) and body[0].body[0].value.value is not body[0].orelse[0].value.value:
+        return body[0].test if body[0].body[0].value.value else negate(body[0].test)
+    if len(body) == 2 and isinstance(body[0], ast.If) and not body[0].orelse and len(body[0].body) == 1 \
+            and isinstance(body[0].body[0], ast.Return) and isinstance(body[0].body[0].value, ast.Constant) \
+            and body[0].body[0].value.value is False and isinstance(body[1], ast.Return) and body[1].value is not None \
+            and isinstance(body[1].value, (ast.Compare, ast.BoolOp, ast.UnaryOp, ast.Call)) and not _has(body, ast.NamedExpr):
+        return ast.fix_missing_locations(ast.copy_location(ast.BoolOp(op=ast.And(), values=[negate(body[0].test), body[1].value]), body[0]))
+    if len(body) == 1 and isinstance(body[0], ast.If) and len(body[0].body) == 1 and len(body[0].orelse) == 1 \
+            and all(isinstance(x, ast.Return) and x.value is not None for x in (body[0].body[0], body[0].orelse[0])) \
+            and not _has(body, ast.NamedExpr):
+        # `if A: return X else: return Y` is the conditional expression (the T1 form of `return X if A else Y`)
+        return ast.fix_missing_locations(ast.copy_location(
+            ast.IfExp(test=body[0].test, body=body[0].body[0].value, orelse=body[0].orelse[0].value), body[0]))
+    return None
+
+
 def _strip_doc(body):
     if body and isinstance(body[0], ast.Expr) and isinstance(body[0].value, ast.Constant) and isinstance(body[0].value.value, str):
         return body[1:]
@@ -273,17 +297,62 @@ class Normalizer:
         out = {}
         if known is None:
             return out
+        pending = []
         for name, vals in mod.assigns.items():
             if name in known or len(vals) != 1 or name.startswith("__"):
                 continue
             if _is_const_expr(vals[0]):
                 out[name] = vals[0]
+            elif _has(vals[0], ast.Call) and not _has(vals[0], (ast.Lambda, ast.Await, ast.Yield, ast.YieldFrom, ast.NamedExpr)):
+                pending.append((name, vals[0]))
+        # a new constant computed by calling new helpers (`_LIMITS = _limits_of(3)`, a table built by a comprehension over such
+        # calls): its defining expression is brought to normal form like a function body `return <expr>`; it counts as a constant
+        # when that leaves a constant expression
+        self.__dict__.setdefault("_mconst_cache", {})[mod.name] = out        # (visible to the evaluation of later ones)
+        for name, val in pending:
+            if self.__dict__.setdefault("_const_depth", 0) > 2:
+                break
+            self._const_depth += 1
+            try:
+                v = self.evaluate_constant(mod, name, val, out)
+            except (Bail, RecursionError):
+                v = None
+            finally:
+                self._const_depth -= 1
+            if v is not None:
+                out[name] = v
         # a name rebound with `global` anywhere is not a constant
         for n in ast.walk(mod.tree):
             if isinstance(n, ast.Global):
                 for g in n.names:
                     out.pop(g, None)
         return out
+
+    def evaluate_constant(self, mod, name, val, known_consts):
+        fn = ast.FunctionDef(name=f"__const_{name}", args=ast.arguments(posonlyargs=[], args=[], vararg=None, kwonlyargs=[], kw_defaults=[],
+                                                                          kwarg=None, defaults=[]),
+                             body=[ast.Return(value=copy.deepcopy(val))], decorator_list=[], returns=None, type_comment=None, type_params=[],
+                             lineno=getattr(val, "lineno", 1), col_offset=0)
+        ast.fix_missing_locations(fn)
+        qual = f"{mod.name}.__const_{name}"
+        saved = (getattr(self, "_local_defs", {}), getattr(self, "_nested_quals", set()), getattr(self, "_record_locals", {}))
+        try:
+            self.substitute_consts(mod, None, fn, known_consts, {})
+            spelling(fn, None, mod)
+            self.normalize_function(mod, None, fn, qual)
+            self.substitute_consts(mod, None, fn, known_consts, {})
+            self.alias_subst = getattr(self, "alias_subst", 0)
+            self.spelling_changes = getattr(self, "spelling_changes", 0)
+            self.shape_changes = getattr(self, "shape_changes", 0)
+            finish(self, fn, None, mod, True, False)
+        finally:
+            self._local_defs, self._nested_quals, self._record_locals = saved
+        body = _strip_doc(fn.body)
+        if len(body) == 1 and isinstance(body[0], ast.Return) and body[0].value is not None and _is_const_expr(body[0].value) \
+                and not _has(body[0].value, (ast.DictComp, ast.ListComp)):
+            # (helpers used only here are dropped like any fully inlined helper: they stay in the log)
+            return body[0].value
+        return None
 
     def new_class_consts(self, ci):
         known = self.inv["class_names"].get(ci.qual)
@@ -366,7 +435,8 @@ class Normalizer:
             return cache[key]
         local = _locals_of(fnode)
         ok = True
-        for n in ast.walk(fnode):
+        foreign = {}
+        for n in (x for b in fnode.body for x in ast.walk(b)):        # (annotations of the signature do not matter)
             if isinstance(n, (ast.Global, ast.Nonlocal)):
                 ok = False
             if isinstance(n, ast.Name) and isinstance(n.ctx, ast.Load) and n.id not in local:
@@ -374,8 +444,18 @@ class Normalizer:
                 if a is None and b is None and hasattr(builtins, n.id):
                     continue
                 if a is None or b is None or a.kind != b.kind or a.node is not b.node or (a.kind in ("ext", "module") and (a.mod, a.node) != (b.mod, b.node)):
-                    ok = False
+                    # a NEW constant of the helper's own module travels with the helper as its value
+                    hc = self.__dict__.setdefault("_mconst_cache", {}).get(hmod.name)
+                    if hc is None:
+                        hc = self.new_module_consts(hmod)
+                        self._mconst_cache[hmod.name] = hc
+                    if a is not None and a.kind == "const" and a.mod is hmod and n.id in hc:
+                        foreign[n.id] = hc[n.id]
+                    else:
+                        ok = False
         cache[key] = ok
+        if ok and foreign:
+            self.__dict__.setdefault("_foreign_consts", {})[id(fnode)] = foreign
         return ok
 
     @staticmethod
@@ -396,6 +476,11 @@ class Normalizer:
         if _has(hnode.body, (ast.Yield, ast.YieldFrom, ast.Await, ast.Global, ast.Nonlocal)):
             raise Bail("generator/global")
         a = hnode.args
+        if any(isinstance(x, ast.Starred) and isinstance(x.value, (ast.Tuple, ast.List)) for x in call.args):
+            flat_ = []
+            for x in call.args:
+                flat_.extend(x.value.elts if isinstance(x, ast.Starred) and isinstance(x.value, (ast.Tuple, ast.List)) else [x])
+            call.args = flat_                    # f(a, *(b, c)) is f(a, b, c)
         if a.kwarg or any(isinstance(x, ast.Starred) for x in call.args) or any(k.arg is None for k in call.keywords):
             raise Bail("star arguments")
         params = [x.arg for x in a.posonlyargs + a.args]
@@ -434,6 +519,16 @@ class Normalizer:
                 else:
                     raise Bail("missing argument")
         body = copy.deepcopy(_strip_doc(hnode.body))
+        fc = getattr(self, "_foreign_consts", {}).get(id(hnode))
+        if fc:
+            loc_ = _locals_of(hnode)
+
+            class FC(ast.NodeTransformer):
+                def visit_Name(self_, n):
+                    if isinstance(n.ctx, ast.Load) and n.id in fc and n.id not in loc_:
+                        return ast.copy_location(copy.deepcopy(fc[n.id]), n)
+                    return n
+            body = [FC().visit(b_) for b_ in body]
         stored = _stored_names(body)
         uses = {}
         for s in body:
@@ -469,9 +564,7 @@ class Normalizer:
             ast.fix_missing_locations(tmpfn)
             spelling(tmpfn)
             body = tmpfn.body
-        single = None
-        if len(body) == 1 and isinstance(body[0], ast.Return) and body[0].value is not None and not prelude:
-            single = body[0].value
+        single = single_expr_of(body) if not prelude else None
         return prelude, body, single
 
     # ---------------------------------------------------------------- statement rewriting
@@ -506,7 +599,9 @@ class Normalizer:
                     for x in ast.walk(n):
                         if x is not n:
                             inner_scope.add(id(x))
-            calls = [n for n in ast.walk(e) if isinstance(n, ast.Call) and id(n) not in inner_scope]
+            # (a call inside a comprehension / lambda is a site too: only a one-expression helper can be substituted there,
+            # rewrite_stmt refuses to hoist statements out of a conditionally or repeatedly evaluated position)
+            calls = [n for n in ast.walk(e) if isinstance(n, ast.Call)]
             calls.sort(key=lambda c: (getattr(c, "end_lineno", 0), getattr(c, "end_col_offset", 0)))
             for c in calls:
                 r = self.resolve(c, fctx["mod"], fctx["cls"], fctx["self"])
@@ -542,6 +637,10 @@ class Normalizer:
             return [s]
         if isinstance(s, ast.For) and isinstance(s.iter, ast.Call) and not s.orelse:
             g = self.inline_generator(s, fctx)
+            if g is not None:
+                return self.rewrite_block(g, fctx)
+        if isinstance(s, ast.If):
+            g = self.inline_loop_decider(s, fctx)
             if g is not None:
                 return self.rewrite_block(g, fctx)
         pre = []
@@ -585,6 +684,29 @@ class Normalizer:
                         keep = tname
                 self.ensure_normalized(hq, hnode, fctx)
                 prelude, body, single = self.instantiate(c, hq, hnode, first, fctx["names"], keep)
+                if single is None or prelude:
+                    # statements of the helper will run in front of this statement: only sound when the call is evaluated
+                    # unconditionally and nothing with an effect is evaluated before it
+                    from .desugar import Desugar as _Dq, is_pure as _pq
+                    root = next((e_ for e_ in self.header_exprs(s) if any(x is c for x in ast.walk(e_))), None)
+                    bef = _Dq._before(root, c) if root is not None else None
+                    if bef is None:
+                        raise Bail("call site is evaluated conditionally")
+                    impure = [b_ for b_ in bef if not _pq(b_)]
+                    if impure:
+                        # what is evaluated before the call and may have an effect keeps its place: it is bound to a temporary
+                        # in front of the helper's statements (in evaluation order)
+                        if isinstance(s, (ast.While,)) or not isinstance(s, (ast.Assign, ast.AugAssign, ast.Expr, ast.Return, ast.If)):
+                            raise Bail("call site is evaluated after an effect")
+                        if isinstance(s, ast.AugAssign) or (isinstance(s, ast.Assign) and any(b_ is t_ for b_ in impure for t_ in s.targets)):
+                            raise Bail("call site is evaluated after an effect")
+                        for b_ in impure:
+                            self.counter += 1
+                            tmp = f"__pre{self.counter}"
+                            fctx["names"].add(tmp)
+                            pre.append(ast.fix_missing_locations(ast.copy_location(
+                                ast.Assign(targets=[ast.Name(id=tmp, ctx=ast.Store())], value=b_, lineno=getattr(s, "lineno", 1)), s)))
+                            self._replace(s, b_, ast.copy_location(ast.Name(id=tmp, ctx=ast.Load()), b_))
                 res = self.splice(s, c, prelude, body, single, fctx, hq)
             except Bail as e:
                 self.bailed.append((fctx["qual"], hq, str(e)))
@@ -604,6 +726,69 @@ class Normalizer:
             fctx["stack"].pop()
             s = res[1]
         return pre + [s]
+
+    def inline_loop_decider(self, s, fctx):
+        """G2: `if H(..): A` (or `if not H(..): A`) where the NEW helper H is `<statements>; <loop .. return CONST ..>; return CONST'`:
+        the helper's body with each `return <const selecting A>` inside the loop replaced by `A; break`, provided the other
+        constant selects nothing (no else branch) - the decision is taken where the helper took it."""
+        t, pol = s.test, True
+        if isinstance(t, ast.UnaryOp) and isinstance(t.op, ast.Not):
+            t, pol = t.operand, False
+        if not isinstance(t, ast.Call) or s.orelse:
+            return None
+        r = self.resolve(t, fctx["mod"], fctx["cls"], fctx["self"])
+        if r is None:
+            return None
+        hq, hnode, first, hmod = r
+        if not self.is_new_function(hq) or hq in fctx["stack"] or hmod is not fctx["mod"] or fctx["budget"] <= 0:
+            return None
+        body0 = _strip_doc(hnode.body)
+        loops = [x for x in body0 if isinstance(x, (ast.While, ast.For))]
+        if len(loops) != 1 or not body0 or not isinstance(body0[-1], ast.Return) or body0[-1].value is None \
+                or not isinstance(body0[-1].value, ast.Constant) or body0[-2:-1] != [loops[0]] or loops[0].orelse:
+            return None
+        if any(_has([x], ast.Return) for x in body0 if x is not loops[0] and x is not body0[-1]):
+            return None
+        if bool(body0[-1].value.value) is pol:
+            return None           # the after-loop return selects A: both exits of the loop would reach it
+        try:
+            self.ensure_normalized(hq, hnode, fctx)
+            prelude, body, _single = self.instantiate(t, hq, hnode, first, fctx["names"])
+        except Bail as e:
+            return None
+        lp = next((x for x in body if isinstance(x, (ast.While, ast.For))), None)
+        if lp is None or not isinstance(body[-1], ast.Return):
+            return None
+        ok = [True]
+
+        def rewrite(stmts):
+            out = []
+            for i, st in enumerate(stmts):
+                if isinstance(st, ast.Return):
+                    if st.value is None or not isinstance(st.value, ast.Constant) or i != len(stmts) - 1:
+                        ok[0] = False
+                        return stmts
+                    if bool(st.value.value) is pol:
+                        out.extend(copy.deepcopy(b) for b in s.body)
+                    out.append(ast.copy_location(ast.Break(), st))
+                elif isinstance(st, ast.If):
+                    st.body = rewrite(st.body)
+                    st.orelse = rewrite(st.orelse)
+                    out.append(st)
+                elif _has([st], ast.Return):
+                    ok[0] = False
+                    return stmts
+                else:
+                    out.append(st)
+            return out
+        lp.body = rewrite(lp.body)
+        if not ok[0]:
+            return None
+        fctx["names"] |= _stored_names(prelude) | _stored_names(body)
+        fctx["budget"] -= 1
+        self.log.append((fctx["qual"], hq, getattr(s, "lineno", 0)))
+        fctx["inlined"].add(hq)
+        return [self._mark(ast.fix_missing_locations(x), hq) for x in prelude + body[:-1]]
 
     def inline_generator(self, s, fctx):
         """G1: `for T in gen(args): BODY` with gen a NEW generator function whose yields are plain `yield E` statements and which
@@ -730,9 +915,81 @@ class Normalizer:
 
     def rewrite_block(self, stmts, fctx):
         out = []
-        for s in stmts:
+        i = 0
+        while i < len(stmts):
+            s = stmts[i]
+            if i + 1 < len(stmts):
+                g = self.inline_search(s, stmts[i + 1], stmts[i + 2:], fctx)
+                if g is not None:
+                    out.extend(self.rewrite_block(g, fctx))
+                    i += 2
+                    continue
             out.extend(self.rewrite_stmt(s, fctx))
+            i += 1
         return out
+
+    def inline_search(self, s, nxt, rest, fctx):
+        """G3: `p = H(..)` + `if p is not None: A` where the NEW helper H is `<loop .. return E ..>; return None` and p is used
+        nowhere else: H's loop with each `return E` replaced by `p = E; A; break` (what is found is used where it is found)."""
+        if not (isinstance(s, ast.Assign) and len(s.targets) == 1 and isinstance(s.targets[0], ast.Name) and isinstance(s.value, ast.Call)
+                and isinstance(nxt, ast.If) and not nxt.orelse):
+            return None
+        pn = s.targets[0].id
+        t = nxt.test
+        if not (isinstance(t, ast.Compare) and len(t.ops) == 1 and isinstance(t.ops[0], ast.IsNot) and isinstance(t.left, ast.Name)
+                and t.left.id == pn and isinstance(t.comparators[0], ast.Constant) and t.comparators[0].value is None):
+            return None
+        if any(isinstance(n, ast.Name) and n.id == pn for x in rest for n in ast.walk(x)):
+            return None
+        r = self.resolve(s.value, fctx["mod"], fctx["cls"], fctx["self"])
+        if r is None:
+            return None
+        hq, hnode, first, hmod = r
+        if not self.is_new_function(hq) or hq in fctx["stack"] or hmod is not fctx["mod"] or fctx["budget"] <= 0:
+            return None
+        body0 = _strip_doc(hnode.body)
+        if len(body0) < 2 or not isinstance(body0[-2], (ast.For, ast.While)) or body0[-2].orelse or not isinstance(body0[-1], ast.Return) \
+                or not (body0[-1].value is None or isinstance(body0[-1].value, ast.Constant) and body0[-1].value.value is None) \
+                or any(_has([x], ast.Return) for x in body0[:-2]):
+            return None
+        try:
+            self.ensure_normalized(hq, hnode, fctx)
+            prelude, body, _single = self.instantiate(s.value, hq, hnode, first, fctx["names"])
+        except Bail:
+            return None
+        lp = body[-2] if len(body) >= 2 and isinstance(body[-2], (ast.For, ast.While)) else None
+        if lp is None:
+            return None
+        ok = [True]
+
+        def rewrite(stmts_):
+            out_ = []
+            for j, st in enumerate(stmts_):
+                if isinstance(st, ast.Return):
+                    if st.value is None or j != len(stmts_) - 1 or (isinstance(st.value, ast.Constant) and st.value.value is None):
+                        ok[0] = False
+                        return stmts_
+                    out_.append(ast.copy_location(ast.Assign(targets=[ast.Name(id=pn, ctx=ast.Store())], value=st.value, lineno=st.lineno), st))
+                    out_.extend(copy.deepcopy(b) for b in nxt.body)
+                    out_.append(ast.copy_location(ast.Break(), st))
+                elif isinstance(st, ast.If):
+                    st.body = rewrite(st.body)
+                    st.orelse = rewrite(st.orelse)
+                    out_.append(st)
+                elif _has([st], ast.Return):
+                    ok[0] = False
+                    return stmts_
+                else:
+                    out_.append(st)
+            return out_
+        lp.body = rewrite(lp.body)
+        if not ok[0]:
+            return None
+        fctx["names"] |= _stored_names(prelude) | _stored_names(body)
+        fctx["budget"] -= 1
+        self.log.append((fctx["qual"], hq, getattr(s, "lineno", 0)))
+        fctx["inlined"].add(hq)
+        return [self._mark(ast.fix_missing_locations(x), hq) for x in prelude + body[:-1]]
 
     def ensure_normalized(self, hq, hnode, fctx):
         """a helper is itself brought to normal form (its own new helpers inlined) before its body is copied into a caller"""
@@ -745,10 +1002,61 @@ class Normalizer:
         saved = (getattr(self, "_local_defs", {}), getattr(self, "_nested_quals", set()), getattr(self, "_record_locals", {}))
         try:
             self.normalize_function(fi.mod, fi.cls, fi.node, hq)
+            self.substitute_consts_of(fi)
         except RecursionError:
             pass
         finally:
             self._local_defs, self._nested_quals, self._record_locals = saved
+
+    def inline_new_properties(self, fn, cls, selfname, fctx):
+        """N1p: `self.P` where P is a NEW read-only property whose getter is one `return <expr>` -> that expression"""
+        norm = self
+        cands = {}
+        for k in cls.mro():
+            if not hasattr(k, "props"):
+                continue
+            for name, d in k.props.items():
+                g = d.get("get")
+                if g is None or "set" in d or name in cands or f"{k.qual}.{name}" in self.inv["functions"]:
+                    continue
+                expr_ = single_expr_of(copy.deepcopy(g.body))
+                if expr_ is not None and g.args.args \
+                        and not any(name in sub.props or name in sub.methods for sub in self.repo.subs.get(k.key, []) if sub is not k):
+                    cands[name] = (g.args.args[0].arg, expr_, f"{k.qual}.{name}")
+        if not cands:
+            return
+
+        class P(ast.NodeTransformer):
+            depth = 0
+
+            def visit_Attribute(self_, n):
+                self_.generic_visit(n)
+                if isinstance(n.ctx, ast.Load) and isinstance(n.value, ast.Name) and n.value.id == selfname and n.attr in cands and self_.depth < 3:
+                    sname, expr, q = cands[n.attr]
+                    e = copy.deepcopy(expr)
+                    if sname != selfname:
+                        e = _Subst({}, {sname: selfname}).visit(e)
+                    norm.log.append((fctx["qual"], q, getattr(n, "lineno", 0)))
+                    fctx["inlined"].add(q)
+                    self_.depth += 1
+                    try:
+                        return ast.copy_location(self_.visit(e), n)
+                    finally:
+                        self_.depth -= 1
+                return n
+        fn.body = [ast.fix_missing_locations(P().visit(b)) for b in fn.body]
+
+    def substitute_consts_of(self, fi):
+        cache = self.__dict__.setdefault("_mconst_cache", {})
+        if fi.mod.name not in cache:
+            cache[fi.mod.name] = self.new_module_consts(fi.mod)
+        cconsts = {}
+        if fi.cls is not None:
+            for k in fi.cls.mro():
+                if hasattr(k, "attrs"):
+                    for n, v in self.new_class_consts(k).items():
+                        cconsts.setdefault(n, v)
+        self.substitute_consts(fi.mod, fi.cls, fi.node, cache[fi.mod.name], cconsts)
 
     # ---------------------------------------------------------------- drivers
     def normalize_function(self, mod, cls, fn, qual):
@@ -756,6 +1064,9 @@ class Normalizer:
         if qual in done:
             return set()
         done.add(qual)
+        fi_ = self.repo.funcs.get(qual)
+        if fi_ is not None and fi_.node is fn:
+            self.substitute_consts_of(fi_)        # new constants first: a table or record constant may expose helper calls
         a = fn.args
         params = [x.arg for x in a.posonlyargs + a.args]
         selfname = params[0] if (cls is not None and params and self._kind(fn) in ("plain", "other", "class")) else None
@@ -785,6 +1096,8 @@ class Normalizer:
                 if q not in self.inv["nested"]:
                     self._nested_quals.add(q)
         fn.body = self.rewrite_block(fn.body, fctx)
+        if cls is not None and selfname:
+            self.inline_new_properties(fn, cls, selfname, fctx)
         # a new nested function that is no longer referenced (every call was inlined) is dropped
         for name, (node, q) in list(self._local_defs.items()):
             if q not in self._nested_quals or q not in fctx["inlined"]:
@@ -816,10 +1129,22 @@ class Normalizer:
         norm = self
 
         class S(ast.NodeTransformer):
+            depth = 0
+
+            def again(self, e):
+                # a new constant may be defined in terms of other new constants
+                if self.depth >= 4:
+                    return e
+                self.depth += 1
+                try:
+                    return self.visit(e)
+                finally:
+                    self.depth -= 1
+
             def visit_Name(self, n):
                 if isinstance(n.ctx, ast.Load) and n.id in mconsts and n.id not in local:
                     norm.const_subst.append((mod.name, n.id))
-                    return ast.copy_location(_fold(copy.deepcopy(mconsts[n.id])), n)
+                    return ast.copy_location(_fold(self.again(copy.deepcopy(mconsts[n.id]))), n)
                 return n
 
             def visit_Attribute(self, n):
@@ -827,7 +1152,7 @@ class Normalizer:
                 if isinstance(n.ctx, ast.Load) and n.attr in cconsts and isinstance(n.value, ast.Name) \
                         and (n.value.id in ("self", "cls") or (cls is not None and n.value.id == cls.name)):
                     norm.const_subst.append((mod.name, n.attr))
-                    return ast.copy_location(_fold(copy.deepcopy(cconsts[n.attr])), n)
+                    return ast.copy_location(_fold(self.again(copy.deepcopy(cconsts[n.attr]))), n)
                 return n
         fn.body = [ast.fix_missing_locations(S().visit(s)) for s in fn.body]
 
@@ -942,6 +1267,31 @@ def canon_calls(repo, nz):
     nz.keyword_args_moved = n_moved
 
 
+def finish(nz, node, cls, mod, do_alias=True, do_shape=True):
+    """spelling / propagation / shape feed each other (a guard clause turned into if/else exposes a flag hand-over, a
+    propagated record exposes a field access ...): repeated until a round changes nothing"""
+    for round_ in range(4):
+        changed = 0
+        if do_alias:
+            changed += spelling(node, cls, mod)
+            changed += sets_to_flags(node)
+            k0 = split_live_ranges(node)
+            k = propagate_aliases(node)
+            nz.alias_subst += k0 + k
+            if k or k0:
+                changed += k + k0 + spelling(node, cls, mod)      # literals moved into place may enable U1/U3/U5
+            kd = drop_dead_copies(node)
+            k2 = propagate_single_use(node) + kd
+            nz.alias_subst += k2
+            if k2:
+                changed += k2 + spelling(node, cls, mod)      # a dict literal moved into `f(**{..})` becomes keywords (U15)
+        nz.spelling_changes += changed
+        sh = shape(node) if do_shape else 0
+        nz.shape_changes += sh
+        if not (changed or sh) or not do_alias:
+            break
+
+
 def apply(repo):
     """Normalise every function of the loaded repository in place.  Returns the Normalizer (for evidence)."""
     inv = load_inventory()
@@ -950,6 +1300,7 @@ def apply(repo):
     # iterate to a fixpoint over a bounded number of rounds so that helpers calling helpers are expanded.
     mconst_cache = {}
     nz.spelling_changes = 0
+    _REPO[0] = repo
     from . import records as _records
     _records.RECORDS = _records.Records(repo, inv)
     nz.records = sorted(k for k, v in _records.RECORDS.names.items() if v is not None)
@@ -971,21 +1322,14 @@ def apply(repo):
         for fi in list(repo.funcs.values()):
             if id(fi.node) not in seen0:
                 seen0.add(id(fi.node))
-                nz.spelling_changes += spelling(fi.node, fi.cls)     # comprehensions become loops before helpers are inlined into them
+                nz.spelling_changes += spelling(fi.node, fi.cls, fi.mod)     # comprehensions become loops before helpers are inlined into them
     for fi in list(repo.funcs.values()):
         mod, cls = fi.mod, fi.cls
         try:
             nz.normalize_function(mod, cls, fi.node, fi.qual)
         except RecursionError:
             nz.bailed.append((fi.qual, "?", "recursion"))
-        if mod.name not in mconst_cache:
-            mconst_cache[mod.name] = nz.new_module_consts(mod)
-        cconsts = {}
-        if cls is not None:
-            for k in cls.mro():
-                for n, v in nz.new_class_consts(k).items():
-                    cconsts.setdefault(n, v)
-        nz.substitute_consts(mod, cls, fi.node, mconst_cache[mod.name], cconsts)
+        nz.substitute_consts_of(fi)
     # a new helper whose every use was inlined is no longer part of the analysed program: who-may-call/write rules
     # must attribute its statements to the functions they were inlined into, not to a second function
     inlined = {h for _, h, _ in nz.log}
@@ -1030,26 +1374,7 @@ def apply(repo):
         if id(fi.node) in seen:
             continue
         seen.add(id(fi.node))
-        # spelling / propagation / shape feed each other (a guard clause turned into if/else exposes a flag hand-over, a
-        # propagated record exposes a field access ...): repeated until a round changes only the shape or nothing
-        for round_ in range(4):
-            changed = 0
-            if do_alias:
-                changed += spelling(fi.node, fi.cls)
-                k0 = split_live_ranges(fi.node)
-                k = propagate_aliases(fi.node)
-                nz.alias_subst += k0 + k
-                if k or k0:
-                    changed += k + k0 + spelling(fi.node, fi.cls)      # literals moved into place may enable U1/U3/U5
-                k2 = propagate_single_use(fi.node)
-                nz.alias_subst += k2
-                if k2:
-                    changed += k2 + spelling(fi.node, fi.cls)      # a dict literal moved into `f(**{..})` becomes keywords (U15)
-            nz.spelling_changes += changed
-            sh = shape(fi.node) if do_shape else 0
-            nz.shape_changes += sh
-            if not (changed or sh) or not do_alias:
-                break
+        finish(nz, fi.node, fi.cls, fi.mod, do_alias, do_shape)
     return nz
 
 
@@ -1249,6 +1574,121 @@ def _is_pure_isinstance(e):
             _chain_text(e.args[1]) is not None or (isinstance(e.args[1], ast.Tuple) and all(_chain_text(x) is not None for x in e.args[1].elts)))
 
 
+def sets_to_flags(fn):
+    """U23: a local set that only ever receives constant elements (`s.add(K)`) and is only asked `K in s` / `K not in s` is a bundle of
+    boolean flags, one per element asked for: `s = set()` -> `s__0 = False; ..`, `s.add(K)` -> `s__i = True`, `K in s` -> `s__i`."""
+    n_done = 0
+    params = {a.arg for a in fn.args.posonlyargs + fn.args.args + fn.args.kwonlyargs}
+    inits = {}
+    for n in ast.walk(fn):
+        if isinstance(n, ast.Assign) and len(n.targets) == 1 and isinstance(n.targets[0], ast.Name) and isinstance(n.value, ast.Call) \
+                and isinstance(n.value.func, ast.Name) and n.value.func.id == "set" and not n.value.args and not n.value.keywords:
+            inits.setdefault(n.targets[0].id, []).append(n)
+    for name, defs in inits.items():
+        if len(defs) != 1 or name in params:
+            continue
+        adds, tests, other = [], [], False
+        parents = {}
+        for p_ in ast.walk(fn):
+            for c_ in ast.iter_child_nodes(p_):
+                parents[id(c_)] = p_
+        for n in ast.walk(fn):
+            if isinstance(n, ast.Name) and n.id == name:
+                par = parents.get(id(n))
+                if par is defs[0]:
+                    continue
+                gp = parents.get(id(par))
+                if isinstance(par, ast.Attribute) and par.attr == "add" and isinstance(gp, ast.Call) and gp.func is par and len(gp.args) == 1 \
+                        and not gp.keywords and isinstance(parents.get(id(gp)), ast.Expr) and _simple_val(gp.args[0]):
+                    adds.append((parents[id(gp)], gp.args[0]))
+                elif isinstance(par, ast.Compare) and len(par.ops) == 1 and isinstance(par.ops[0], (ast.In, ast.NotIn)) \
+                        and par.comparators[0] is n and _simple_val(par.left):
+                    tests.append(par)
+                else:
+                    other = True
+        if other or not tests:
+            continue
+        keys = []
+        for t in tests:
+            k = ast.dump(t.left)
+            if k not in keys:
+                keys.append(k)
+        flag = {k: f"{name}__has{i}" for i, k in enumerate(keys)}
+
+        class T(ast.NodeTransformer):
+            def visit_Compare(self_, n):
+                self_.generic_visit(n)
+                if n in tests or any(n is t for t in tests):
+                    ref = ast.Name(id=flag[ast.dump(n.left)], ctx=ast.Load())
+                    out = ref if isinstance(n.ops[0], ast.In) else ast.UnaryOp(op=ast.Not(), operand=ref)
+                    return ast.copy_location(out, n)
+                return n
+
+            def visit_Expr(self_, n):
+                for st_, k_ in adds:
+                    if n is st_:
+                        d = ast.dump(k_)
+                        if d in flag:
+                            return ast.copy_location(ast.Assign(targets=[ast.Name(id=flag[d], ctx=ast.Store())], value=ast.Constant(value=True),
+                                                                lineno=n.lineno), n)
+                        return ast.copy_location(ast.Pass(), n)
+                return self_.generic_visit(n)
+
+            def visit_Assign(self_, n):
+                if n is defs[0]:
+                    return [ast.copy_location(ast.Assign(targets=[ast.Name(id=f_, ctx=ast.Store())], value=ast.Constant(value=False),
+                                                         lineno=n.lineno), n) for f_ in flag.values()]
+                return self_.generic_visit(n)
+        T().visit(fn)
+        ast.fix_missing_locations(fn)
+        n_done += 1
+    return n_done
+
+
+def drop_dead_copies(fn):
+    """P8: `t = <name / constant / attribute chain / literal>` where t is never read is dropped (left behind by the passes above)"""
+    loads = set()
+    for n in ast.walk(fn):
+        if isinstance(n, ast.Name) and isinstance(n.ctx, (ast.Load, ast.Del)):
+            loads.add(n.id)
+        elif isinstance(n, (ast.Global, ast.Nonlocal)):
+            loads |= set(n.names)
+    params = {a.arg for a in fn.args.posonlyargs + fn.args.args + fn.args.kwonlyargs}
+    n_drop = 0
+
+    def pure_value(v):
+        if isinstance(v, (ast.Name, ast.Constant)) or _is_simple(v):
+            return True
+        if isinstance(v, (ast.Tuple, ast.List)):
+            return all(pure_value(e) for e in v.elts)
+        if isinstance(v, ast.Dict):
+            return all(k is not None and pure_value(k) for k in v.keys) and all(pure_value(x) for x in v.values)
+        return False
+
+    def block(stmts):
+        nonlocal n_drop
+        out = []
+        for st in stmts:
+            if isinstance(st, ast.Assign) and len(st.targets) == 1 and isinstance(st.targets[0], ast.Name) and st.targets[0].id not in loads \
+                    and st.targets[0].id not in params and pure_value(st.value):
+                n_drop += 1
+                continue
+            for fld in ("body", "orelse", "finalbody"):
+                b = getattr(st, fld, None)
+                if isinstance(b, list) and b and isinstance(b[0], ast.stmt) and not isinstance(st, (ast.FunctionDef, ast.AsyncFunctionDef, ast.ClassDef)):
+                    nb = block(b)
+                    setattr(st, fld, nb if nb or fld != "body" else [ast.copy_location(ast.Pass(), st)])
+            if isinstance(st, ast.Try):
+                for h in st.handlers:
+                    h.body = block(h.body) or [ast.copy_location(ast.Pass(), h)]
+            out.append(st)
+        return out
+    # a name read inside a nested function counts (ast.walk above covers nested scopes)
+    fn.body = block(fn.body) or [ast.Pass()]
+    ast.fix_missing_locations(fn)
+    return n_drop
+
+
 def split_live_ranges(fn):
     """P4: a local that is plainly re-assigned at the top level of one block (`x = a; use(x); x = b; use(x)`, typically an unrolled
     loop variable or a re-used temporary) gets a fresh name per assignment, except for the last one: every definition then has
@@ -1410,6 +1850,25 @@ def propagate_aliases(fn):
                 if free_ok and uses_all and uses_later == uses_all:
                     cands[name] = (s.value, later)
             elif isinstance(s, ast.Assign) and len(s.targets) == 1 and isinstance(s.targets[0], ast.Name) \
+                    and isinstance(s.value, ast.Dict) and s.value.keys and len(s.value.keys) <= 8 \
+                    and all(isinstance(k_, ast.Constant) for k_ in s.value.keys) and stores.get(s.targets[0].id) == 1 \
+                    and s.targets[0].id not in params \
+                    and not any(isinstance(n, ast.Subscript) and isinstance(n.ctx, (ast.Store, ast.Del)) and isinstance(n.value, ast.Name)
+                                and n.value.id == s.targets[0].id for n in ast.walk(fn)) \
+                    and all(isinstance(v_, ast.Constant) or (_chain_text(v_) is not None and stores.get(_chain_text(v_).split(".")[0], 0) == 0
+                                                             and not any(_chain_text(v_) == a_ or a_.startswith(_chain_text(v_) + ".")
+                                                                         or _chain_text(v_).startswith(a_ + ".") for a_ in attr_stores))
+                            for v_ in s.value.values):
+                # P5d: a local bound once to a dict literal of stable simple values that is only read (iterated, looked up)
+                name = s.targets[0].id
+                later = stmts[i + 1:]
+                uses_later = sum(1 for t in later for n in ast.walk(t) if isinstance(n, ast.Name) and n.id == name and isinstance(n.ctx, ast.Load))
+                uses_all = sum(1 for n in ast.walk(fn) if isinstance(n, ast.Name) and n.id == name and isinstance(n.ctx, ast.Load))
+                mutated = any(isinstance(n, ast.Call) and isinstance(n.func, ast.Attribute) and isinstance(n.func.value, ast.Name)
+                              and n.func.value.id == name and n.func.attr not in ("items", "keys", "values", "get") for n in ast.walk(fn))
+                if uses_all and uses_later == uses_all and uses_all <= 2 and not mutated:
+                    cands[name] = (s.value, later)
+            elif isinstance(s, ast.Assign) and len(s.targets) == 1 and isinstance(s.targets[0], ast.Name) \
                     and isinstance(s.value, ast.Call) and stores.get(s.targets[0].id) == 1 and s.targets[0].id not in params \
                     and _record_value_of_stable_names(s.value, stores, params, attr_stores):
                 # P5r: a local bound once to a record construction over names/attributes that do not change afterwards
@@ -1503,6 +1962,7 @@ def propagate_aliases(fn):
 #       function                                               -> replaced by that expression at its uses
 # =====================================================================================================
 _SIMPLE_ELT = (ast.Name, ast.Constant, ast.Attribute)
+_REPO = [None]        # the repository being normalised (set by apply)
 
 
 def _simple_val(e):
@@ -1681,6 +2141,27 @@ class Spelling(ast.NodeTransformer):
                     return self.visit(ast.fix_missing_locations(ast.copy_location(rep, n)))
         return n
 
+    def visit_JoinedStr(self, n):
+        # N3: constant string fields of an f-string are part of its text
+        self.generic_visit(n)
+        vals, changed = [], False
+        for v in n.values:
+            if isinstance(v, ast.FormattedValue) and v.conversion == -1 and v.format_spec is None \
+                    and isinstance(v.value, ast.Constant) and type(v.value.value) is str:
+                v = ast.Constant(value=v.value.value)
+                changed = True
+            if isinstance(v, ast.Constant) and vals and isinstance(vals[-1], ast.Constant):
+                vals[-1] = ast.Constant(value=vals[-1].value + v.value)
+                changed = True
+            else:
+                vals.append(v)
+        if not changed:
+            return n
+        self.changes += 1
+        if all(isinstance(v, ast.Constant) for v in vals):
+            return ast.copy_location(ast.Constant(value="".join(v.value for v in vals)), n)
+        return ast.fix_missing_locations(ast.copy_location(ast.JoinedStr(values=vals), n))
+
     def visit_Tuple(self, n):
         # U19: (a, *(b, c)) -> (a, b, c)
         self.generic_visit(n)
@@ -1733,6 +2214,12 @@ class Spelling(ast.NodeTransformer):
             v = {ast.Eq: a == b, ast.NotEq: a != b, ast.Lt: a < b, ast.LtE: a <= b, ast.Gt: a > b, ast.GtE: a >= b}[type(n.ops[0])]
             self.changes += 1
             return ast.copy_location(ast.Constant(value=v), n)
+        # U24: a < b < c with simple operands -> a < b and b < c
+        if len(n.ops) > 1 and all(_is_simple(x) for x in [n.left] + list(n.comparators)):
+            vals = [n.left] + list(n.comparators)
+            parts = [ast.Compare(left=copy.deepcopy(vals[i]), ops=[n.ops[i]], comparators=[copy.deepcopy(vals[i + 1])]) for i in range(len(n.ops))]
+            self.changes += 1
+            return self.visit(ast.fix_missing_locations(ast.copy_location(ast.BoolOp(op=ast.And(), values=parts), n)))
         # N3: identity of two literal singletons
         if len(n.ops) == 1 and isinstance(n.ops[0], (ast.Is, ast.IsNot)) and isinstance(n.left, ast.Constant) \
                 and isinstance(n.comparators[0], ast.Constant) and (n.left.value is None or n.comparators[0].value is None
@@ -1847,8 +2334,7 @@ class Spelling(ast.NodeTransformer):
                 if ok and v and not plain:
                     fn_ = getattr(self, "fn", None)
                     all_loads = sum(1 for n in ast.walk(fn_) if isinstance(n, ast.Name) and n.id == v and isinstance(n.ctx, ast.Load)) if fn_ is not None else -1
-                    ok = all_loads == uses_next and all(isinstance(b[-1].value, ast.Constant) or (
-                        not isinstance(b[-1].value, _SIMPLE_ELT) and _simple_val(b[-1].value)) for b in branches) \
+                    ok = all_loads == uses_next and all(_simple_val(b[-1].value) for b in branches) \
                         and not any(isinstance(n, ast.Name) and n.id == v for b in branches for x in b[:-1] for n in ast.walk(x))
                 if ok and v and uses_next >= 1 and uses_rest == 0 and not any(
                         isinstance(n, ast.Name) and n.id == v and isinstance(n.ctx, ast.Store) for n in ast.walk(nxt)):
@@ -1858,6 +2344,153 @@ class Spelling(ast.NodeTransformer):
                     del out[i + 1]
                     self.changes += 1
                     continue
+            i += 1
+        return out
+
+    def loop_forms(self, out):
+        """W1: `i = 0; while i < len(X): v = X[i]; BODY; i += 1`  ->  `for v in X: BODY`   (i used nowhere else, no continue in BODY)
+        W2: `L = [E for t in IT if C]; for u in L: BODY` (L used only there, E the bare target(s), C over the targets and names BODY
+            does not bind)  ->  `for t in list(IT): if C: BODY[u := E]`"""
+        fn_ = getattr(self, "fn", None)
+        i = 0
+        while i + 1 < len(out):
+            a, b = out[i], out[i + 1]
+            # W1
+            if isinstance(a, ast.Assign) and len(a.targets) == 1 and isinstance(a.targets[0], ast.Name) and isinstance(a.value, ast.Constant) \
+                    and a.value.value == 0 and type(a.value.value) is int and isinstance(b, ast.While) and not b.orelse and len(b.body) >= 2:
+                ix = a.targets[0].id
+                t = b.test
+                first, last = b.body[0], b.body[-1]
+                if isinstance(t, ast.Compare) and len(t.ops) == 1 and isinstance(t.ops[0], ast.Lt) and isinstance(t.left, ast.Name) and t.left.id == ix \
+                        and isinstance(t.comparators[0], ast.Call) and isinstance(t.comparators[0].func, ast.Name) and t.comparators[0].func.id == "len" \
+                        and len(t.comparators[0].args) == 1 and _is_simple(t.comparators[0].args[0]) \
+                        and isinstance(first, ast.Assign) and len(first.targets) == 1 and isinstance(first.targets[0], ast.Name) \
+                        and isinstance(first.value, ast.Subscript) and ast.unparse(first.value.value) == ast.unparse(t.comparators[0].args[0]) \
+                        and isinstance(first.value.slice, ast.Name) and first.value.slice.id == ix \
+                        and isinstance(last, ast.AugAssign) and isinstance(last.target, ast.Name) and last.target.id == ix and isinstance(last.op, ast.Add) \
+                        and isinstance(last.value, ast.Constant) and last.value.value == 1:
+                    mid = b.body[1:-1]
+                    uses_mid = any(isinstance(n, ast.Name) and n.id == ix for x in mid for n in ast.walk(x))
+                    total = sum(1 for n in ast.walk(fn_) if isinstance(n, ast.Name) and n.id == ix) if fn_ is not None else -1
+                    own_cont = any(isinstance(n, (ast.Continue, ast.Break)) for x in mid for n in ast.walk(x))
+                    if not uses_mid and total == 4 and not own_cont:
+                        loop = ast.For(target=ast.Name(id=first.targets[0].id, ctx=ast.Store()), iter=t.comparators[0].args[0],
+                                       body=mid or [ast.Pass()], orelse=[], lineno=b.lineno)
+                        out[i:i + 2] = [ast.fix_missing_locations(ast.copy_location(loop, b))]
+                        self.changes += 1
+                        continue
+            # W1b: the element is not bound to a name: X[i] is used in place
+            if isinstance(a, ast.Assign) and len(a.targets) == 1 and isinstance(a.targets[0], ast.Name) and isinstance(a.value, ast.Constant) \
+                    and a.value.value == 0 and type(a.value.value) is int and isinstance(b, ast.While) and not b.orelse and len(b.body) >= 2 \
+                    and fn_ is not None:
+                ix = a.targets[0].id
+                t = b.test
+                last = b.body[-1]
+                if isinstance(t, ast.Compare) and len(t.ops) == 1 and isinstance(t.ops[0], ast.Lt) and isinstance(t.left, ast.Name) and t.left.id == ix \
+                        and isinstance(t.comparators[0], ast.Call) and isinstance(t.comparators[0].func, ast.Name) and t.comparators[0].func.id == "len" \
+                        and len(t.comparators[0].args) == 1 and _is_simple(t.comparators[0].args[0]) \
+                        and isinstance(last, ast.AugAssign) and isinstance(last.target, ast.Name) and last.target.id == ix and isinstance(last.op, ast.Add) \
+                        and isinstance(last.value, ast.Constant) and last.value.value == 1:
+                    xs = ast.unparse(t.comparators[0].args[0])
+                    mid = b.body[:-1]
+                    subs = [n for x in mid for n in ast.walk(x) if isinstance(n, ast.Subscript) and isinstance(n.ctx, ast.Load)
+                            and ast.unparse(n.value) == xs and isinstance(n.slice, ast.Name) and n.slice.id == ix]
+                    ix_uses = sum(1 for x in mid for n in ast.walk(x) if isinstance(n, ast.Name) and n.id == ix)
+                    total = sum(1 for n in ast.walk(fn_) if isinstance(n, ast.Name) and n.id == ix)
+                    own_cont = any(isinstance(n, (ast.Continue, ast.Break)) for x in mid for n in ast.walk(x))
+                    if subs and ix_uses == len(subs) and total == 3 + len(subs) and not own_cont:
+                        elem = f"{ix}__item"
+
+                        class E_(ast.NodeTransformer):
+                            def visit_Subscript(self_, n):
+                                if any(n is q for q in subs):
+                                    return ast.copy_location(ast.Name(id=elem, ctx=ast.Load()), n)
+                                self_.generic_visit(n)
+                                return n
+                        mid = [E_().visit(x) for x in mid]
+                        loop = ast.For(target=ast.Name(id=elem, ctx=ast.Store()), iter=t.comparators[0].args[0], body=mid, orelse=[], lineno=b.lineno)
+                        out[i:i + 2] = [ast.fix_missing_locations(ast.copy_location(loop, b))]
+                        self.changes += 1
+                        continue
+            # W2
+            if isinstance(a, ast.Assign) and len(a.targets) == 1 and isinstance(a.targets[0], ast.Name) and isinstance(a.value, ast.ListComp) \
+                    and len(a.value.generators) == 1 and isinstance(b, ast.For) and isinstance(b.iter, ast.Name) and b.iter.id == a.targets[0].id \
+                    and not b.orelse and fn_ is not None:
+                L = a.targets[0].id
+                g = a.value.generators[0]
+                total = sum(1 for n in ast.walk(fn_) if isinstance(n, ast.Name) and n.id == L)
+                tnames = [n.id for n in ast.walk(g.target) if isinstance(n, ast.Name)]
+                elt_ok = (isinstance(a.value.elt, ast.Name) and a.value.elt.id in tnames and isinstance(b.target, ast.Name)) or \
+                    (ast.unparse(a.value.elt) == ast.unparse(g.target) and ast.unparse(b.target) == ast.unparse(g.target))
+                bound_in_body = {n.id for x in b.body for n in ast.walk(x) if isinstance(n, ast.Name) and isinstance(n.ctx, ast.Store)}
+                cond_names = {n.id for c in g.ifs for n in ast.walk(c) if isinstance(n, ast.Name)}
+                if total == 2 and elt_ok and not g.is_async and not any(_has(c, (ast.Call, ast.NamedExpr)) for c in g.ifs) \
+                        and not ((cond_names - set(tnames)) & bound_in_body) and not (set(tnames) & bound_in_body) \
+                        and not any(isinstance(n, ast.Name) and n.id in tnames and n.id != getattr(a.value.elt, "id", None)
+                                    for x in b.body for n in ast.walk(x)):
+                    body = b.body
+                    if isinstance(b.target, ast.Name) and isinstance(a.value.elt, ast.Name) and b.target.id != a.value.elt.id:
+                        body = [_RenameAll(b.target.id, a.value.elt.id).visit(x) for x in body]
+                    for c in reversed(g.ifs):
+                        body = [ast.If(test=c, body=body, orelse=[])]
+                    it = g.iter
+                    if not (isinstance(it, ast.Call) and isinstance(it.func, ast.Name) and it.func.id == "list"):
+                        it = ast.Call(func=ast.Name(id="list", ctx=ast.Load()), args=[it], keywords=[])
+                    loop = ast.For(target=g.target, iter=it, body=body, orelse=[], lineno=b.lineno)
+                    out[i:i + 2] = [ast.fix_missing_locations(ast.copy_location(loop, b))]
+                    self.changes += 1
+                    continue
+            i += 1
+        return out
+
+    def flag_loops(self, out):
+        """W3: `f = False; while not f: BODY; TAIL` where BODY sets f only to constants in tail position of the iteration, f is used nowhere
+        else and TAIL ends with return/raise  ->  `while True: BODY'` with `f = True` replaced by TAIL and `f = False` dropped."""
+        fn_ = getattr(self, "fn", None)
+        i = 0
+        while i + 1 < len(out) and fn_ is not None:
+            a, b = out[i], out[i + 1]
+            tail = out[i + 2:]
+            if isinstance(a, ast.Assign) and len(a.targets) == 1 and isinstance(a.targets[0], ast.Name) and isinstance(a.value, ast.Constant) \
+                    and a.value.value is False and isinstance(b, ast.While) and not b.orelse and isinstance(b.test, ast.UnaryOp) \
+                    and isinstance(b.test.op, ast.Not) and isinstance(b.test.operand, ast.Name) and b.test.operand.id == a.targets[0].id \
+                    and tail and isinstance(tail[-1], (ast.Return, ast.Raise)) and len(tail) <= 3 \
+                    and not any(isinstance(n, (ast.Break, ast.Continue)) for x in b.body for n in ast.walk(x)):
+                f = a.targets[0].id
+                occurrences = [n for n in ast.walk(fn_) if isinstance(n, ast.Name) and n.id == f]
+                inside = [n for x in b.body for n in ast.walk(x) if isinstance(n, ast.Name) and n.id == f]
+                ok = [len(occurrences) == 2 + len(inside) and not any(isinstance(n, ast.Name) and n.id == f for x in tail for n in ast.walk(x))]
+
+                def rewrite(stmts, is_tail):
+                    res = []
+                    for j, st in enumerate(stmts):
+                        last = is_tail and j == len(stmts) - 1
+                        if isinstance(st, ast.Assign) and len(st.targets) == 1 and isinstance(st.targets[0], ast.Name) and st.targets[0].id == f:
+                            if not (last and isinstance(st.value, ast.Constant) and isinstance(st.value.value, bool)):
+                                ok[0] = False
+                                return stmts
+                            if st.value.value:
+                                res.extend(copy.deepcopy(t_) for t_ in tail)
+                            continue
+                        if isinstance(st, ast.If):
+                            st.body = rewrite(st.body, last) or [ast.copy_location(ast.Pass(), st)]
+                            st.orelse = rewrite(st.orelse, last)
+                        elif isinstance(st, ast.With):
+                            st.body = rewrite(st.body, last) or [ast.copy_location(ast.Pass(), st)]
+                        elif any(isinstance(n, ast.Name) and n.id == f for n in ast.walk(st)):
+                            ok[0] = False
+                            return stmts
+                        res.append(st)
+                    return res
+                saved = copy.deepcopy(b.body)
+                nb = rewrite(b.body, True)
+                if ok[0] and inside:
+                    b.body = nb or [ast.copy_location(ast.Pass(), b)]
+                    b.test = ast.copy_location(ast.Constant(value=True), b.test)
+                    out[i:] = [ast.fix_missing_locations(b)]
+                    self.changes += 1
+                    continue
+                b.body = saved
             i += 1
         return out
 
@@ -1907,7 +2540,7 @@ class Spelling(ast.NodeTransformer):
                 for h in s.handlers:
                     h.body = self.block(h.body)
             out.extend(self.stmt(s))
-        return self.sink_selected(self.merge_dict_building(out))
+        return self.sink_selected(self.flag_loops(self.loop_forms(self.merge_dict_building(out))))
 
     @staticmethod
     def _truth_form(t):
@@ -1923,6 +2556,8 @@ class Spelling(ast.NodeTransformer):
         if isinstance(t, ast.UnaryOp) and isinstance(t.op, ast.Not):
             t.operand = Spelling._truth_form(t.operand)
             return t
+        if isinstance(t, ast.Call) and isinstance(t.func, ast.Name) and t.func.id == "bool" and len(t.args) == 1 and not t.keywords:
+            return Spelling._truth_form(t.args[0])        # only the truth value of a test is looked at
         if isinstance(t, ast.BoolOp):
             t.values = [Spelling._truth_form(v) for v in t.values]
             # flatten nested same-operator chains
@@ -1937,7 +2572,8 @@ class Spelling(ast.NodeTransformer):
         return t
 
     def stmt(self, s):
-        if isinstance(s, (ast.If, ast.While)) and _has(s.test, ast.IfExp):
+        if isinstance(s, (ast.If, ast.While)) and (_has(s.test, ast.IfExp) or any(
+                isinstance(c_, ast.Call) and isinstance(c_.func, ast.Name) and c_.func.id == "bool" for c_ in ast.walk(s.test))):
             s.test = ast.fix_missing_locations(self._truth_form(s.test))
         # N4: `if True:` / `if False:` (a parameter replaced by the constant it was called with) -> the selected branch
         if isinstance(s, ast.If) and isinstance(s.test, ast.Constant) and isinstance(s.test.value, bool):
@@ -1945,7 +2581,10 @@ class Spelling(ast.NodeTransformer):
             return list(s.body if s.test.value else s.orelse)
         # B1: x = <boolean expression>  ->  if <expression>: x = True else: x = False   (every operand is a bool)
         if isinstance(s, ast.Assign) and len(s.targets) == 1 and isinstance(s.targets[0], (ast.Name, ast.Attribute)) \
-                and isinstance(s.value, ast.BoolOp) and all(self._boolish(v) for v in s.value.values) and not _has(s.value, ast.NamedExpr):
+                and (isinstance(s.value, ast.BoolOp) and all(self._boolish(v) for v in s.value.values)
+                     or isinstance(s.value, ast.Compare) and isinstance(s.targets[0], ast.Attribute) and _is_simple(s.targets[0])
+                     and all(isinstance(o, (ast.Lt, ast.LtE, ast.Gt, ast.GtE, ast.Eq, ast.NotEq)) for o in s.value.ops)) \
+                and not _has(s.value, ast.NamedExpr):
             self.changes += 1
             mk = lambda c: ast.Assign(targets=[copy.deepcopy(s.targets[0])], value=ast.Constant(value=c), lineno=s.lineno)
             return [ast.fix_missing_locations(ast.copy_location(ast.If(test=s.value, body=[mk(True)], orelse=[mk(False)]), s))]
@@ -1984,6 +2623,8 @@ class Spelling(ast.NodeTransformer):
                     return
                 if isinstance(e, ast.UnaryOp) and isinstance(e.op, ast.Not):
                     return
+                if isinstance(e, ast.Call) and isinstance(e.func, ast.Name) and e.func.id == "bool":
+                    return            # bool(a and b): the operand is only asked for its truth value
                 for c_ in ast.iter_child_nodes(e):
                     if isinstance(c_, ast.expr):
                         value_boolops(c_, out)
@@ -2009,7 +2650,7 @@ class Spelling(ast.NodeTransformer):
                 return self.block([s])
         # T1: a conditional expression inside a simple statement, evaluated before anything with an effect
         #     stmt[.. (a if c else b) ..]  ->  if c: stmt[.. a ..] else: stmt[.. b ..]
-        if isinstance(s, (ast.Assign, ast.AugAssign, ast.Return, ast.Expr)) and s.value is not None and not isinstance(s.value, ast.IfExp):
+        if isinstance(s, (ast.Assign, ast.AugAssign, ast.Return, ast.Expr)) and s.value is not None:
             from .desugar import Desugar as _D, is_pure as _pure
             scope_skip = set()
             for n in ast.walk(s.value):
@@ -2030,6 +2671,12 @@ class Spelling(ast.NodeTransformer):
                     self.changes += 1
                     new_if = ast.If(test=copy.deepcopy(t.test), body=[variant(t.body)], orelse=[variant(t.orelse)])
                     return self.block([ast.fix_missing_locations(ast.copy_location(new_if, s))])
+        # D2: x = x + <integer literal>  ->  x += <literal>   (x a name or attribute chain; no difference for numbers)
+        if isinstance(s, ast.Assign) and len(s.targets) == 1 and _is_simple(s.targets[0]) and not isinstance(s.targets[0], ast.Constant) \
+                and isinstance(s.value, ast.BinOp) and isinstance(s.value.op, (ast.Add, ast.Sub)) and isinstance(s.value.right, ast.Constant) \
+                and type(s.value.right.value) is int and ast.unparse(s.value.left) == ast.unparse(s.targets[0]):
+            self.changes += 1
+            return [ast.fix_missing_locations(ast.copy_location(ast.AugAssign(target=s.targets[0], op=s.value.op, value=s.value.right), s))]
         # B2: return <boolean and/or expression>  ->  if <expression>: return True else: return False
         if isinstance(s, ast.Return) and isinstance(s.value, ast.BoolOp) and all(self._boolish(v) for v in s.value.values) \
                 and not _has(s.value, ast.NamedExpr):
@@ -2267,6 +2914,62 @@ class Spelling(ast.NodeTransformer):
                         out.append(ast.Assign(targets=[copy.deepcopy(s.targets[0])], value=ren(W().visit(copy.deepcopy(ge.elt))), lineno=s.lineno))
                         self.changes += 1
                         return [ast.fix_missing_locations(ast.copy_location(x, s)) for x in out]
+        # U26: `for _ in itertools.count(..)` with the counter unused -> `while True` (the endless loop it is)
+        if isinstance(s, ast.For) and isinstance(s.iter, ast.Call) and not s.orelse and isinstance(s.target, ast.Name) \
+                and not any(isinstance(n, ast.Name) and n.id == s.target.id for b in s.body for n in ast.walk(b)):
+            fname = ast.unparse(s.iter.func)
+            is_count = fname == "itertools.count"
+            if not is_count and isinstance(s.iter.func, ast.Name) and getattr(self, "mod", None) is not None and _REPO[0] is not None:
+                r_ = _REPO[0].resolve(self.mod, s.iter.func.id)
+                is_count = r_ is not None and r_.kind == "ext" and (r_.mod, r_.node) == ("itertools", "count")
+            fn_ = getattr(self, "fn", None)
+            used_after = fn_ is None or sum(1 for n in ast.walk(fn_) if isinstance(n, ast.Name) and n.id == s.target.id) > 1
+            if is_count and not used_after and not any(_has([a_], ast.Call) for a_ in s.iter.args):
+                self.changes += 1
+                return self.block([ast.fix_missing_locations(ast.copy_location(
+                    ast.While(test=ast.Constant(value=True), body=s.body, orelse=[]), s))])
+        # W2b: `for u in [E for t in IT if C]: BODY` with E the bare target(s) and C over the targets and names BODY does not bind
+        #      -> `for t in list(IT): if C: BODY[u := E]`
+        if isinstance(s, ast.For) and isinstance(s.iter, ast.ListComp) and len(s.iter.generators) == 1 and not s.orelse:
+            lc = s.iter
+            g = lc.generators[0]
+            tnames = [n.id for n in ast.walk(g.target) if isinstance(n, ast.Name)]
+            elt_ok = (isinstance(lc.elt, ast.Name) and lc.elt.id in tnames and isinstance(s.target, ast.Name)) or \
+                (ast.unparse(lc.elt) == ast.unparse(g.target) and ast.unparse(s.target) == ast.unparse(g.target))
+            bound_in_body = {n.id for x in s.body for n in ast.walk(x) if isinstance(n, ast.Name) and isinstance(n.ctx, ast.Store)}
+            cond_names = {n.id for c in g.ifs for n in ast.walk(c) if isinstance(n, ast.Name)}
+            other_tnames = [t_ for t_ in tnames if t_ != getattr(lc.elt, "id", None)]
+            if elt_ok and not g.is_async and not any(_has(c, (ast.Call, ast.NamedExpr)) for c in g.ifs) \
+                    and not ((cond_names - set(tnames)) & bound_in_body) and not (set(tnames) & bound_in_body) \
+                    and not any(isinstance(n, ast.Name) and n.id in other_tnames for x in s.body for n in ast.walk(x)):
+                body = s.body
+                if isinstance(s.target, ast.Name) and isinstance(lc.elt, ast.Name) and s.target.id != lc.elt.id:
+                    body = [_RenameAll(s.target.id, lc.elt.id).visit(x) for x in body]
+                for c in reversed(g.ifs):
+                    body = [ast.If(test=c, body=body, orelse=[])]
+                it = g.iter
+                if not (isinstance(it, ast.Call) and isinstance(it.func, ast.Name) and it.func.id == "list"):
+                    it = ast.Call(func=ast.Name(id="list", ctx=ast.Load()), args=[it], keywords=[])
+                self.changes += 1
+                return self.block([ast.fix_missing_locations(ast.copy_location(ast.For(target=g.target, iter=it, body=body, orelse=[], lineno=s.lineno), s))])
+        # U22: `for k in {..literal..}` / `.keys()` / `.values()` / `.items()` of a dict literal with literal keys -> the tuple it walks
+        if isinstance(s, ast.For):
+            it_ = s.iter
+            which = "keys"
+            if isinstance(it_, ast.Call) and isinstance(it_.func, ast.Attribute) and it_.func.attr in ("keys", "values", "items") \
+                    and not it_.args and not it_.keywords:
+                which, it_ = it_.func.attr, it_.func.value
+            if isinstance(it_, ast.Dict) and it_.keys and all(isinstance(k, ast.Constant) for k in it_.keys) \
+                    and len({repr(k.value) for k in it_.keys}) == len(it_.keys) and len(it_.keys) <= 12:
+                if which == "keys":
+                    elts = list(it_.keys)
+                elif which == "values":
+                    elts = list(it_.values)
+                else:
+                    elts = [ast.Tuple(elts=[k, v], ctx=ast.Load()) for k, v in zip(it_.keys, it_.values)]
+                if which == "keys" or all(_simple_val(v) for v in it_.values):
+                    s.iter = ast.fix_missing_locations(ast.copy_location(ast.Tuple(elts=elts, ctx=ast.Load()), s.iter))
+                    self.changes += 1
         # U11 first match over a literal table, statement form:
         #   for a[, b] in ((..), ..): if C: B; break  [else: E]   ->   if C1: B1 elif C2: B2 ... [else: E]
         if isinstance(s, ast.For) and isinstance(s.iter, (ast.Tuple, ast.List)) and 1 <= len(s.iter.elts) <= 10 and len(s.body) == 1 \
@@ -2295,6 +2998,30 @@ class Spelling(ast.NodeTransformer):
                     chain = [ast.If(test=inst(inner.test, vals), body=body, orelse=chain)]
                 self.changes += 1
                 return self.block([ast.fix_missing_locations(ast.copy_location(chain[0], s))])
+        # U25: in the body of a loop over a literal table `if C: continue` followed by REST is `if not C: REST` (so that the body can
+        # be unrolled: a `continue` has no meaning outside its loop)
+        if isinstance(s, ast.For) and isinstance(s.iter, (ast.Tuple, ast.List)) and _has(s.body, ast.Continue):
+            def no_continue(stmts):
+                for i, st in enumerate(stmts):
+                    if isinstance(st, ast.If) and not st.orelse and len(st.body) == 1 and isinstance(st.body[0], ast.Continue):
+                        rest = no_continue(stmts[i + 1:])
+                        if rest is None:
+                            return None
+                        return stmts[:i] + ([ast.copy_location(ast.If(test=negate(st.test), body=rest, orelse=[]), st)] if rest else [])
+                    if isinstance(st, ast.Continue) and i == len(stmts) - 1:
+                        return stmts[:i]
+                    if _has([st], ast.Continue):
+                        own = [n for n in ast.walk(st) if isinstance(n, ast.Continue)]
+                        inner_loops = [n for n in ast.walk(st) if isinstance(n, (ast.For, ast.While))]
+                        if not all(any(c is x for lp in inner_loops for x in ast.walk(lp)) for c in own):
+                            return None
+                return stmts
+            nb = no_continue(list(s.body))
+            if nb is not None and not any(isinstance(n, ast.Continue) for b in nb for n in ast.walk(b)
+                                          if not any(isinstance(lp, (ast.For, ast.While)) and any(n is x for x in ast.walk(lp)) for lp in ast.walk(b) if lp is not b or True) or False):
+                s.body = nb or [ast.copy_location(ast.Pass(), s)]
+                ast.fix_missing_locations(s)
+                self.changes += 1
         # U1b unroll with a tuple target over a literal table of rows
         if isinstance(s, ast.For) and isinstance(s.target, ast.Tuple) and all(isinstance(t, ast.Name) for t in s.target.elts) and not s.orelse \
                 and isinstance(s.iter, (ast.Tuple, ast.List)) and 1 <= len(s.iter.elts) <= 8 \
@@ -2359,8 +3086,9 @@ def _bool_locals(fn):
     return {k for k, vs in vals.items() if vs and k not in params and all(ok(v) for v in vs)}
 
 
-def spelling(fn, cls=None):
+def spelling(fn, cls=None, mod=None):
     sp = Spelling()
+    sp.mod = mod if mod is not None else (cls.mod if cls is not None and hasattr(cls, "mod") else None)
     sp.bool_locals = _bool_locals(fn)
     sp.fn = fn
     if cls is not None:
@@ -2424,7 +3152,8 @@ def propagate_single_use(fn):
                     # the confirmed tree know them by their roles)
                     if len(occ) == 1 and in_scope and occ[0] is nxt.value and isinstance(nxt, ast.Assign):
                         before = _Dz._before(nxt.value, occ[0])
-                        tgt_pure = all(_is_simple(t) for t in (nxt.targets if isinstance(nxt, ast.Assign) else [nxt.target] if isinstance(nxt, ast.AugAssign) else []))
+                        # (the targets of a plain assignment are evaluated after its value: they need not be pure)
+                        tgt_pure = isinstance(nxt, ast.Assign) or all(_is_simple(t) for t in ([nxt.target] if isinstance(nxt, ast.AugAssign) else []))
                         if before is not None and all(_pz(b_) for b_ in before) and tgt_pure and not isinstance(nxt, ast.AugAssign):
                             _Dz._replace(nxt, "value", occ[0], s.value)
                             ast.fix_missing_locations(nxt)
@@ -2441,10 +3170,12 @@ def propagate_single_use(fn):
                     hit = [c for c in ast.walk(nxt) if isinstance(c, ast.Call) and any(
                         k.arg is None and isinstance(k.value, ast.Name) and k.value.id == name for k in c.keywords)]
                     if len(hit) == 1 and _is_simple(hit[0].func) and all(_is_simple(a) for a in hit[0].args) \
-                            and all(k.arg is None and isinstance(k.value, ast.Name) and k.value.id == name for k in hit[0].keywords) \
+                            and all((k.arg is None and isinstance(k.value, ast.Name) and k.value.id == name) or
+                                    (k.arg is not None and _is_simple(k.value)) for k in hit[0].keywords) \
                             and (getattr(nxt, "value", None) is hit[0]):
                         for k in hit[0].keywords:
-                            k.value = s.value
+                            if k.arg is None:
+                                k.value = s.value
                         del stmts[i]
                         n_sub += 1
                         continue
